@@ -22,7 +22,7 @@ def knownNotFrozen : List String :=
 /-- every listed (blocked) entry point that exists raised NetworkXNotImplemented in every probe call and
     never touched interactions, timelines, snapshots or the stream -/
 theorem C19_blocked :
-    table.all (fun r => !r.listed || r.frozen || (decide (0 < r.calls) && r.nxni == r.calls && decide (r.effect ≤ 1))) = true := by
+    table.all (fun r => !r.listed || r.frozen || (r.probed && r.allNxni && decide (r.effect ≤ 1))) = true := by
   decide +kernel
 
 /-- a listed entry point is blocked in the source: it carries the decorator, or it is inherited unchanged
@@ -33,7 +33,7 @@ theorem C19_blocked_static :
 
 /-- no probe call through any public entry point left an adjacency entry without a timeline, succ/pred
     out of step, or the stream out of step with presence -/
-theorem C19_consistent : table.all (fun r => r.inconsistent == 0) = true := by
+theorem C19_consistent : table.all (fun r => !r.inconsistent) = true := by
   decide +kernel
 
 /-- only the timed dynetx API (and clear / clear_edges) changes interactions on an unfrozen graph -/
@@ -43,7 +43,7 @@ theorem C19_only_timed_mutate :
 
 /-- on a frozen graph every mutator raised and changed nothing, except the known finding D23 -/
 theorem C19_frozen_partial :
-    table.all (fun r => !r.frozen || (r.raised == r.calls && r.effect == 0) || knownNotFrozen.contains r.name) = true := by
+    table.all (fun r => !r.frozen || (r.allRaised && r.effect == 0) || knownNotFrozen.contains r.name) = true := by
   decide +kernel
 
 /-- the table is not vacuous: the blocked names of both classes and the frozen rows are there -/
